@@ -1142,6 +1142,8 @@ func (c *Checker) checkMethod(
 	c.catchScopes = nil
 	prevHasDefer := c.hasDefer()
 	c.setHasDefer(false)
+	prevReturnType := c.returnType
+	prevThrowType := c.throwType
 
 	name := checkedMethod.Name
 	prevMode := c.mode
@@ -1318,8 +1320,8 @@ func (c *Checker) checkMethod(
 	checkedMethod.SetHasDefer(c.hasDefer())
 
 	c.setHasDefer(prevHasDefer)
-	c.returnType = nil
-	c.throwType = nil
+	c.returnType = prevReturnType
+	c.throwType = prevThrowType
 	c.mode = prevMode
 	c.flags = prevFlags
 	c.catchScopes = prevCatchScopes
